@@ -18,7 +18,7 @@ use std::time::{Duration, Instant};
 use tokio_util::codec::{Decoder, Encoder};
 
 thread_local! {
-    static TID: Cell<Option<usize>> = const { Cell::new(None) };
+    pub static TID: Cell<Option<usize>> = const { Cell::new(None) };
 }
 
 #[derive(Clone, Copy, PartialEq, Debug)]
@@ -46,7 +46,7 @@ impl Gate {
         Gate { mu: Mutex::new(GateState { turn: None, st: vec![TState::Starting; n], log: vec![], at: vec![""; n] }), cv: Condvar::new() }
     }
     /// called by a client thread before every gated call
-    fn enter(&self, what: &'static str) {
+    pub fn enter(&self, what: &'static str) {
         let id = match TID.with(|t| t.get()) {
             Some(i) => i,
             None => return,
@@ -61,6 +61,9 @@ impl Gate {
         g.turn = None;
         g.st[id] = TState::Running;
         g.log.push((id, what));
+    }
+    pub fn done_pub(&self, id: usize) {
+        self.done(id)
     }
     fn done(&self, id: usize) {
         let mut g = self.mu.lock().unwrap();
@@ -172,6 +175,10 @@ impl World {
         let sut_like = crate::sut::Sut::dump_of(&self.mem);
         sut_like
     }
+}
+
+pub fn run_one_pub(h: &BinaryHandler, limit: u32, frame: &[u8]) -> Option<Vec<u8>> {
+    run_one(h, limit, frame)
 }
 
 fn run_one(h: &BinaryHandler, limit: u32, frame: &[u8]) -> Option<Vec<u8>> {
